@@ -411,6 +411,9 @@ func (c c01Case) describes(rr schemahandler.RawRecord, out []byte) string {
 		if i == c.Shape.IntCol {
 			continue // the int cast changes the representation ("000" -> 0)
 		}
+		if c.Shape.Format == "xml" && c.Shape.XMLAttr && i == c.Shape.NCols-1 {
+			continue // this column is an attribute of c0, not a child element of the record
+		}
 		name := fmt.Sprintf("c%d", i)
 		v, present := m[name]
 		if !present {
